@@ -208,7 +208,8 @@ class Runner:
             kw["addresses"] = ["10.0.0.7", "fd00::1"]
         if spec.get("addresses"):
             kw["addresses"] = list(spec["addresses"])
-        self.cli = sim.client(spec.get("address") or "10.0.0.1", 6053, spec.get("password"), **kw)
+        # spec["client_outside_loop"]: the client object is built by synchronous set-up code, before the loop that runs its sessions is running
+        self.cli = sim.client(spec.get("address") or "10.0.0.1", 6053, spec.get("password"), outside_loop=bool(spec.get("client_outside_loop")), **kw)
         if spec.get("traffic"):
             tr = spec["traffic"]
 
